@@ -50,6 +50,12 @@ CHECKS.update({
         "Declarations (functions, methods, constructors, attributes, properties, classes with 0-3 bases) draw flagged and unflagged constructs independently; the set of marker classes in the comment block in front of every stub declaration must equal the set derived from that declaration alone, so missing markers and markers leaking to neighbours are both seen.",
         "§5 C20",
     ),
+    "C02": (
+        "E1 package engine",
+        "property-based testing / grammar-based fuzzing: Hypothesis-drawn identifiers (incl. every Safe-DS keyword in every position), strings, numbers and docstring texts; oracle = independent recursive-descent recogniser of the stub grammar",
+        "Every stub file of every generated package must be accepted as a whole by a hand-written recogniser with its own reserved-word table; a deterministic sweep puts each of the 23 Python-legal keywords (three spellings) in every declaration position under both naming settings; random packages cover hostile strings and docstrings in all four docstring styles.",
+        "§5 C02",
+    ),
 })
 
 NOT_YET = "check not built yet in this session (work in progress, see DESIGN.md §9)"
